@@ -7,6 +7,7 @@
 package gomatrixserverlib
 
 import (
+	"context"
 	"crypto/ed25519"
 	"crypto/sha256"
 	"encoding/base64"
@@ -478,4 +479,57 @@ func evKnownClass(version string, ev jv) string {
 		}
 	}
 	return ""
+}
+
+// ---------------------------------------------------------------------------------------------
+// A recording JSONVerifier that answers by real ed25519 verification against a scripted key table
+// (independent of KeyRing). A key is (server, keyID) -> label of vfKeyFor; an optional per-key
+// validity window [from, until] in ms is honoured through the request's ValidityCheckingFunc-free
+// rule: valid iff from <= AtTS <= until (0,0 = always).
+
+type vfStubKey struct {
+	Label       string
+	From, Until int64
+}
+
+type vfStubVerifier struct {
+	Keys  map[string]map[string]vfStubKey // server -> keyID -> key
+	Asked []string
+	Err   error
+}
+
+func (s *vfStubVerifier) VerifyJSONs(ctx context.Context, reqs []VerifyJSONRequest) ([]VerifyJSONResult, error) {
+	if s.Err != nil {
+		return nil, s.Err
+	}
+	out := make([]VerifyJSONResult, len(reqs))
+	for i, r := range reqs {
+		s.Asked = append(s.Asked, string(r.ServerName))
+		ids, err := ListKeyIDs(string(r.ServerName), r.Message)
+		if err != nil {
+			out[i].Error = err
+			continue
+		}
+		out[i].Error = fmt.Errorf("no valid signature from %s", r.ServerName)
+		for _, id := range ids {
+			k, ok := s.Keys[string(r.ServerName)][string(id)]
+			if !ok {
+				continue
+			}
+			if (k.From != 0 || k.Until != 0) && (int64(r.AtTS) < k.From || int64(r.AtTS) > k.Until) {
+				continue
+			}
+			pub, _ := vfKeyFor(k.Label)
+			if VerifyJSON(string(r.ServerName), id, pub, r.Message) == nil {
+				out[i].Error = nil
+				break
+			}
+		}
+	}
+	return out, nil
+}
+
+// vfUserIDForSender is the identity mapping used by non-pseudo-ID room versions.
+func vfUserIDForSender(roomID spec.RoomID, senderID spec.SenderID) (*spec.UserID, error) {
+	return spec.NewUserID(string(senderID), true)
 }
